@@ -15,11 +15,12 @@ import (
 // every mutating call is a file-mutation point (FMP) at which the fault plan
 // may take a crash / torn-write / power-loss image or make the call fail.
 type Disk struct {
-	w       *World
-	Root    *Node
-	nextIno int
-	mapped  []*Inode // inodes with live mappings, in mapping order
-	inFlush bool
+	w         *World
+	Root      *Node
+	nextIno   int
+	mapped    []*Inode // inodes with live mappings, in mapping order
+	openFiles int      // descriptors open now
+	inFlush   bool
 }
 
 // Node is a directory entry.
@@ -358,6 +359,14 @@ func (d *Disk) OpenFile(name string, flag int, perm os.FileMode) (*File, error) 
 	case "eacces":
 		return nil, perr("open", name, syscall.EACCES)
 	}
+	if lim := d.w.FDLimit; lim > 0 && d.openFiles >= lim {
+		// the simulated process is out of descriptors (RLIMIT_NOFILE)
+		d.w.Stats.Probes["emfile-by-descriptor-limit"]++
+		if debugFaults {
+			fmt.Fprintf(os.Stderr, "descriptor limit: open %s refused in step %d phase %q (%d open)\n", name, d.w.StepID, d.w.Phase, d.openFiles)
+		}
+		return nil, perr("open", name, syscall.EMFILE)
+	}
 	parent, base, n, err := d.lookup("open", name)
 	if err != nil {
 		return nil, err
@@ -384,6 +393,11 @@ func (d *Disk) OpenFile(name string, flag int, perm os.FileMode) (*File, error) 
 		if !n.Dir && flag&os.O_TRUNC != 0 && flag&(os.O_WRONLY|os.O_RDWR) != 0 {
 			d.truncate(n.Ino, 0)
 		}
+	}
+	d.openFiles++
+	switch d.openFiles {
+	case 8, 16, 32, 64, 128:
+		d.w.Stats.Probes[fmt.Sprintf("open-descriptors-reached-%d", d.openFiles)]++
 	}
 	return &File{d: d, path: name, node: n, ino: n.Ino, flags: flag}, nil
 }
@@ -685,6 +699,7 @@ func (f *File) Close() error {
 	}
 	f.d.enter("close", f.path, 0, nil, false, f.ino)
 	f.closed = true
+	f.d.openFiles--
 	return nil
 }
 
